@@ -122,8 +122,15 @@ func BSWrite(s *stack.Stack, msgs []WriteMsg, abort bool) BSWriteResult {
 		sent++
 	}
 	if abort {
+		// Abort = RST_STREAM only. CloseAndRecv would first half-close the
+		// stream, which can overtake the cancellation and look like a clean
+		// end of the upload to the server.
 		cancel()
-		_, err := st.CloseAndRecv()
+		var resp bytestream.WriteResponse
+		err := st.RecvMsg(&resp)
+		if err == nil {
+			return BSWriteResult{Committed: resp.CommittedSize, Code: codes.OK, Sent: sent}
+		}
 		return BSWriteResult{Code: status.Code(err), Err: err, Sent: sent, Committed: -999}
 	}
 	resp, err := st.CloseAndRecv()
